@@ -217,10 +217,19 @@ pub fn adt_def(u: &Universe, d: &AdtDef) -> String {
         },
         Body::Enum(vs) => {
             let _ = writeln!(s, "{} {{", wh);
-            for (n, f) in vs {
+            // half of the enums that have a unit variant also derive `Default` and mark that variant `#[default]`
+            // (an attribute that belongs to another derive and must not change anything here)
+            let dflt = if crate::mix_seed(&["default-attr", &d.name, &d.module], 0) % 2 == 0 { vs.iter().position(|(_, f)| matches!(f, Fields::Unit)) } else { None };
+            for (k, (n, f)) in vs.iter().enumerate() {
+                if dflt == Some(k) {
+                    s.push_str("    #[default]\n");
+                }
                 let _ = writeln!(s, "    {}{},", n, fields_src(u, d, f, ""));
             }
             s.push_str("}\n");
+            if dflt.is_some() {
+                s = s.replacen("#[derive(epserde::Epserde, Clone, Debug", "#[derive(epserde::Epserde, Default, Clone, Debug", 1);
+            }
         }
     }
     if d.name == "DropAudit" {
